@@ -184,3 +184,92 @@ fn c16_swt_eval_constraints() {
     assert!(SortedWritesTable::eval_constraints(&both, &row) == (x >= Value::new(v) && x == row[col2 as usize]));
     kani::cover!(true, "witness: end of harness reached");
 }
+
+// ---- the writer of `offsets`: SortChecker ----------------------------------------------------------------
+// Inductive step for the index invariant used above: from any well-formed `offsets` (both components strictly
+// increasing, first run at row 0), a batch of rows with one sort value `cur >= baseline` appended at row
+// `start` (= the old next_row) leaves `offsets` well-formed and makes every appended row belong to a run
+// whose sort value is `cur`.
+#[kani::proof]
+#[kani::unwind(6)]
+fn c16_swt_sortchecker_update_offsets() {
+    let n: usize = kani::any();
+    kani::assume(n <= 2);
+    let v0: u32 = kani::any();
+    let v1: u32 = kani::any();
+    let r1: u32 = kani::any();
+    kani::assume(v0 < v1 && 0 < r1 && r1 < 10);
+    let mut offsets: Vec<(Value, RowId)> = Vec::with_capacity(4);
+    if n >= 1 {
+        offsets.push((Value::new(v0), RowId::new(0)));
+    }
+    if n >= 2 {
+        offsets.push((Value::new(v1), RowId::new(r1)));
+    }
+    // rows already in the table: start is the old next_row, past the first row of the last run
+    let start: u32 = kani::any();
+    kani::assume(start < 20);
+    if n == 0 {
+        kani::assume(start == 0);
+    } else if n == 1 {
+        kani::assume(start > 0);
+    } else {
+        kani::assume(start > r1);
+    }
+    let baseline = if n == 0 { None } else { Some(offsets[n - 1].0) };
+    let cur: u32 = kani::any();
+    let mut chk = SortChecker { col: ColumnId::new(2), baseline, current: None };
+    // the batch: two rows with the same sort value (check_local sees every row)
+    if let Some(b) = baseline {
+        kani::assume(Value::new(cur) >= b);
+    }
+    let row = [Value::new(kani::any()), Value::new(kani::any()), Value::new(cur)];
+    chk.check_local(&row);
+    chk.check_local(&row);
+    assert!(chk.current == Some(Value::new(cur)));
+    let merged = SortChecker::check_global([chk, chk].iter());
+    assert!(merged.current == Some(Value::new(cur)) && merged.baseline == baseline);
+    merged.update_offsets(RowId::new(start), &mut offsets);
+    // invariant preserved
+    let m = offsets.len();
+    assert!(m >= 1 && m <= 3);
+    assert!(offsets[0].1 == RowId::new(0));
+    let mut i = 1;
+    while i < m {
+        assert!(offsets[i - 1].0 < offsets[i].0, "sort values strictly increasing");
+        assert!(offsets[i - 1].1 < offsets[i].1, "first rows strictly increasing");
+        i += 1;
+    }
+    // the appended rows (ids >= start) fall in the last run, whose sort value is cur
+    assert!(offsets[m - 1].0 == Value::new(cur));
+    assert!(offsets[m - 1].1 <= RowId::new(start));
+    // nothing already in the table moved to another run
+    if n >= 1 {
+        assert!(offsets[0] == (Value::new(v0), RowId::new(0)));
+    }
+    if n >= 2 {
+        assert!(offsets[1] == (Value::new(v1), RowId::new(r1)));
+    }
+    kani::cover!(n == 2 && m == 3, "witness: a new run is opened after two existing ones");
+    kani::cover!(n == 2 && m == 2, "witness: the batch extends the last run");
+    kani::cover!(n == 0 && m == 1, "witness: first batch of an empty table");
+    std::mem::forget(offsets);
+}
+
+/// An empty batch (no row seen) leaves offsets alone; check_global of no checkers is the neutral checker.
+#[kani::proof]
+#[kani::unwind(6)]
+fn c16_swt_sortchecker_empty_batch() {
+    let v0: u32 = kani::any();
+    let mut offsets: Vec<(Value, RowId)> = Vec::with_capacity(2);
+    offsets.push((Value::new(v0), RowId::new(0)));
+    let chk = SortChecker { col: ColumnId::new(2), baseline: Some(Value::new(v0)), current: None };
+    let merged = SortChecker::check_global([chk].iter());
+    merged.update_offsets(RowId::new(3), &mut offsets);
+    assert!(offsets.len() == 1 && offsets[0] == (Value::new(v0), RowId::new(0)));
+    let none = SortChecker::check_global(std::iter::empty::<&SortChecker>());
+    none.update_offsets(RowId::new(3), &mut offsets);
+    assert!(offsets.len() == 1);
+    kani::cover!(true, "witness: end of harness reached");
+    std::mem::forget(offsets);
+}
